@@ -78,6 +78,12 @@ def gen_cases(tier, seed):
                       "mesh": mesh if rng.integers(6) else float(rng.uniform(8, 20)), "shift": shift, "gamma": bool(rng.integers(2)), "tr": bool(rng.integers(4) != 0),
                       "iter": bool(rng.integers(4) == 0), "_cost": 4,
                       "nac": [None, "wang", "gonze"][rng.integers(3)] if name in ("rocksalt", "wurtzite", "zincblende", "rutile", "tric2") else None, "nseed": int(rng.integers(10 ** 6))})
+    # dense meshes on low-symmetry crystals: more than a thousand IRREDUCIBLE q-points with unequal weights (kernels that consume the weights in
+    # blocks only show their block handling there)
+    for b in range(3 if tier == "quick" else 16):
+        name, mesh = [("tric2", [13, 13, 13]), ("mono_p", [17, 13, 11]), ("tric2", [21, 21, 21]), ("ortho_c", [21, 19, 17]), ("tric2", [15, 14, 11]), ("mono_c", [15, 15, 13])][b % 6]
+        cases.append({"kind": "phonon", "crystal": {"name": name, "order": "asis", "order_seed": 0}, "mesh": mesh, "shift": [None, [0.5, 0.5, 0.5]][b % 2], "gamma": bool(b % 3 == 0),
+                      "tr": True, "iter": False, "_cost": 60, "nac": None, "nseed": 0, "dense": True})
     # Wang NAC (not periodic in q) on the non-orthogonal polar lattices: every run has several of these, even and odd meshes, Gamma-centred or not
     for b in range(9 if tier == "quick" else 60):
         name = ["wurtzite", "rocksalt", "zincblende"][b % 3]
@@ -338,6 +344,8 @@ def run_case(c):
         if e > rel * sc_:
             bad("sym_on_off", "%s differs with mesh symmetry on vs off by %.3e (scale %.3e)" % (k, e, sc_), quantity=k, **feat)
     obs["phonon_reduced"] = int(a["n_ir"] < b["n_ir"])
+    obs["phonon_more_than_1024_irreducible_points"] = int(a["n_ir"] > 1024)
+    obs["phonon_more_than_4096_irreducible_points"] = int(a["n_ir"] > 4096)
     obs["phonon_iter"] = int(c["iter"])
     obs["phonon_arbitrary_shift"] = int(feat["arbitrary_shift"])
     key = "ph|%s|%s|%s|%s|%s|%s" % (c["crystal"]["name"], mesh, shift, gamma, tr, c["iter"])
